@@ -12,6 +12,10 @@
 //	(c) c10c_test.go  POST /forcecleanup on an in-process origin blob server
 //	    with a real write-back manager and one scripted backend per namespace
 //	    (blobs owed to one or two namespaces).
+//	(k) c10k_test.go  delete requests, persist-flag changes and LRU evictions
+//	    interleaved on a capacity-1..2 file map after a restart: directed
+//	    schedules (one operation held between "entry loaded" and "entry stored")
+//	    and free-running goroutines, judged on the recorded history.
 //	(r) c10r_test.go  last-access bookkeeping across a reload of the file map
 //	    (restart, refused delete of a persisted file, LRU eviction of a
 //	    persisted file), judged by the real cleanup pass.
@@ -52,13 +56,19 @@ func TestC10(t *testing.T) {
 			"non-trivial = >=1 persisted blob survived a failing backend and >=1 was deleted after write-back. "+
 			"(r) 2-5 files created through the store on a mock clock, aged to TTI/2..3*TTI, entries dropped from the file map (restart / refused persisted "+
 			"delete / LRU eviction of persisted files), accessed again (read, write, unpersist) seconds to minutes after the reload, pause of 30 s..TTI+400 s, "+
-			"then the real cleanup pass; non-trivial = >=1 access after a reload and >=2 files judged. distinct = distinct generated case.")
+			"then the real cleanup pass; non-trivial = >=1 access after a reload and >=2 files judged. "+
+			"(k) directed schedules: DeleteFile (or stat/read followed by DeleteFile) of a file that is on disk but not in the capacity-1..2 map is held between "+
+			"loading its entry and storing it, meanwhile one of 11 templates of complete operations runs (set/clear persist, refused delete, accesses that evict the "+
+			"file from the map), then it resumes; free-running rounds: 3-5 goroutines x 30 generated ops on 4-7 files; non-trivial = >=1 operation on the target "+
+			"completed while the delete was held / >=1 refused and >=1 successful delete. distinct = distinct generated case.")
 	defer run.Finish()
 	run.Assume("file presence, bytes and sidecars are observed directly on disk (os.Stat/ReadFile), not through the store")
 	run.Assume("(a) the order of the file map is read through the read-only probe base.VerifC10MapOrder; recency rules are checked on it step by step: a read/write/metadata-write/move/create puts the entry first, a peek (stat/path/metadata read) may or may not, nothing else reorders")
 	run.Assume("(b) files without a last-access sidecar may or may not be removed by the idle rule (DESIGN 3.40); ages/idle times are never placed within 3 s of a limit")
 	run.Assume("(b) the amount the usage-driven pass deletes is only bounded loosely (statement constrains order and protection, not the amount); deleting below the lower threshold is counted, not flagged")
 	run.Assume("(c) the scripted backends and the sqlite-backed write-back store are trusted fakes/outer boundaries; 'awaiting write-back' = the persist mark is set when the pass starts; a mark cleared by a partially successful write-back is counted, not flagged")
+	run.Assume("(b) a name that is listed but cannot be stat'ed (leftover entry directory without data file, file deleted by a request right after the listing) is not judged; every other file is")
+	run.Assume("(k) target names are never re-created; overlapping operations may take effect in either order; the hold point is on entry to FileMap.TryStore through the pass-through wrapper base.VerifC10NewGatedLRUFileStore")
 	run.Assume("(r) the last-access record has a documented 5 min resolution: a file counts as recently used when its true idle time + 5 min < TTI, as idle when true idle time > TTI; in between either outcome")
 
 	base := ev.TempDir(t, "c10-")
@@ -83,6 +93,14 @@ func TestC10(t *testing.T) {
 	for i := 0; i < run.N(240, 12000); i++ {
 		i := i
 		jobs = append(jobs, job{fmt.Sprintf("r%d", i), func() { partR(t, run, base, i) }})
+	}
+	for i := 0; i < run.N(88, 6000); i++ {
+		i := i
+		jobs = append(jobs, job{fmt.Sprintf("k%d", i), func() { partKDirected(t, run, base, i) }})
+	}
+	for i := 0; i < run.N(10, 500); i++ {
+		i := i
+		jobs = append(jobs, job{fmt.Sprintf("kf%d", i), func() { partKFree(t, run, base, i) }})
 	}
 	ch := make(chan job, 64)
 	var wg sync.WaitGroup
